@@ -138,13 +138,18 @@ prop("C08", level="other", stages=[tierb_c08.stage, _c08_async],
 from . import tierb_flow  # noqa: E402
 
 prop("C11", level="other", stages=[tierb_flow.c11_stage],
-     technique="syntactic channel-frame obligations on the parsed bodies + Kani contract of validate_buffers",
+     technique="syntactic channel-frame obligations on the parsed bodies; Kani contracts of validate_buffers and resample_unit; Kani relational runs "
+               "of the compiled code (2-channel vs 1-channel resampler, other channel symbolic or masked out)",
      explanation="Channel frame: inside every loop over channels each access to per-channel storage is indexed by the loop's own channel variable and the caller's "
                  "buffers are touched only under that channel's mask bit; no value is carried from one channel's iteration to the next; control flow, control state and "
                  "returned counts outside the channel loops do not mention the mask; validate_buffers inspects active channels only (Kani contract); resample_unit "
                  "rewrites all shared FFT work buffers before each transform. Together with the index obligations of C03 this gives per-channel independence and "
-                 "untouched masked outputs; it is a frame argument, not a relational proof on values.",
-     trusted_base=["vlib/tierb_flow.py classification of per-channel storage and channel loops"])
+                 "untouched masked outputs; it is a frame argument, not a relational proof on values. The relational statement itself is checked on the "
+                 "compiled code for bounded shapes (kani/gen/gen_c11.py): for each of the seven types a 2-channel resampler whose other channel carries arbitrary "
+                 "samples in [-1,1] (FFT quick tier: concrete samples) is run next to a 1-channel one with the same history - the channel of interest (at index 0 and at "
+                 "index 1) must be bit-identical, the counts equal, and with the other channel masked out and passed empty its sentinel-filled output stays untouched.",
+     trusted_base=["vlib/tierb_flow.py classification of per-channel storage and channel loops",
+                   "relational Kani runs: chunk 3-4, 2 calls, harness-defined sinc interpolator / data-preserving FFT plans"])
 prop("C17", level="other", stages=[tierb_flow.c17_stage, tierb_async.stage_for("C17", what=("process",))],
      technique="syntactic information-flow obligations (taint from sample storage and the sample type T to control sinks); Tier B range VCs + Z3 on "
                "every value converted to the sample type in the stepping code",
